@@ -9,15 +9,18 @@ EXTENDS RefreshWorker, Json, CSV
 
 CONSTANT CancelUpTo   \* the driver cancels the Start context only while at most this many ticks were delivered
 
-VARIABLE whist
-wgvars == <<wvars, whist>>
+CONSTANT ExtraChoices   \* how many further Shutdown calls the driver makes (chosen per run)
+
+VARIABLES whist,
+          xtarget     \* the number of further Shutdown calls of this run
+wgvars == <<wvars, whist, xtarget>>
 
 Last(s) == s[Len(s)]
 Bit(b) == IF b THEN 1 ELSE 0
 RefEv(r, k) == <<"refresh", r.who, Bit(r.cons), Bit(r.live), r.out, k>>
 StartEv == <<"start", Bit(sctx = "cancelled")>>
 
-WGInit == WInit /\ whist = <<StartEv>>
+WGInit == WInit /\ whist = <<StartEv>> /\ xtarget \in ExtraChoices
 WGNext ==
     \/ AskSchedule /\ whist' = Append(whist, <<"ask", Bit(askedWith' = nnow'), nd'>>)
     \/ Sleep /\ whist' = Append(whist, <<"sleep", timerD'>>)
@@ -25,16 +28,19 @@ WGNext ==
     \/ \E o \in RefOutcomes : Refresh(o) /\ whist' = Append(whist, RefEv(Last(refs'), Len(refs')))
     \/ HandleError /\ whist' = Append(whist, <<"handle", Last(handled')>>)
     \* the application cancels the Start context while the worker is parked
-    \/ lp = "waiting" /\ timer = "pending" /\ sp = "none" /\ ticks <= CancelUpTo /\ CancelStart
+    \/ lp = "waiting" /\ timer = "pending" /\ sp = "none" /\ ticks <= CancelUpTo /\ xtarget = 0 /\ CancelStart
        /\ whist' = Append(whist, <<"cancel">>)
     \/ lp = "waiting" /\ timer = "pending" /\ Shutdown /\ whist' = Append(whist, <<"shutdown">>)
     \/ \E o \in RefOutcomes : FinalRefresh(o) /\ whist' = Append(whist, RefEv(Last(refs'), Len(refs')))
     \/ WindowTick /\ whist' = Append(whist, <<"tick">>)     \* offered by the driver during the final refresh; never enabled
     \/ ShutdownReturn /\ whist' = Append(whist, <<"ret", result'>>)
     \/ sp = "returned" /\ SeeDone /\ UNCHANGED whist
-WGSpec == WGInit /\ [][WGNext]_wgvars
+    \* Shutdown once more (runs without a Start-context cancel only, to keep the product small)
+    \/ lp = "stopped" /\ extra < xtarget /\ ShutdownAgain
+       /\ whist' = Append(whist, <<"shutdown2">>) \o <<<<"ret2">>>>
+WGSpec == WGInit /\ [][WGNext /\ UNCHANGED xtarget]_wgvars
 
-WComplete == sp = "returned" /\ lp = "stopped"
+WComplete == sp = "returned" /\ lp = "stopped" /\ extra = xtarget
 
 WEmit == ~WComplete
          \/ CSVWrite("%1$s", <<ToJson([ros |-> ros, events |-> whist, result |-> result])>>, "refresh_vectors.ndjson")
